@@ -57,11 +57,17 @@ def wrapInt (v : Int) : Int :=
 /-- a long stored into an `int` variable -/
 def cInt (v : Int) : Int := wrapInt (clampLong v)
 
-/-- `const int x = strtol(s, &e, 10)`: (x, e); without a conversion x = 0 and e = s -/
-def strtolInt (s : Bytes) : Int × Bytes :=
+/-- the C value of a converted number: kept as `long` (saturated) or stored into an `int` (saturated, then low 32 bits) -/
+def narrow (isLong : Bool) (v : Int) : Int := if isLong then clampLong v else cInt v
+
+/-- `const T x = strtol(s, &e, 10)` with T = long / int: (x, e); without a conversion x = 0 and e = s -/
+def strtolC (isLong : Bool) (s : Bytes) : Int × Bytes :=
   match lexInt s with
   | none => (0, s)
-  | some (v, r) => (cInt v, r)
+  | some (v, r) => (narrow isLong v, r)
+
+/-- `const int x = strtol(s, &e, 10)` -/
+def strtolInt (s : Bytes) : Int × Bytes := strtolC false s
 
 /-- `atoi(s)` (glibc: `(int) strtol(s, NULL, 10)`) -/
 def atoi (s : Bytes) : Int := (strtolInt s).1
@@ -85,7 +91,7 @@ def lexFields : Nat → Bytes → Option (List Int)
     | some (v, 44 :: r) => (lexFields (n + 1) r).map (v :: ·)
     | _ => none
 
-/-- what `sscanf(buf, "%d,%d,%d,%d,%d,%d", ...)` stores when it returns 6 -/
-def scan6 (s : Bytes) : Option (List Int) := (lexFields 6 s).map (List.map cInt)
+/-- what `sscanf(buf, "%d,%d,%d,%d,%d,%d", ...)` (or "%ld,..." into longs) stores when it returns 6 -/
+def scan6 (isLong : Bool) (s : Bytes) : Option (List Int) := (lexFields 6 s).map (List.map (narrow isLong))
 
 end SquidModel.Ftp
